@@ -46,6 +46,9 @@ type EncOpts struct {
 	// CompressPlaintext: the plaintext is DEFLATE-compressed before encryption (the SP inflates whatever
 	// does not parse, top-level messages and plaintexts alike)
 	CompressPlaintext bool
+	// ZlibStyleEnd: that DEFLATE stream ends the way zlib ends one (sync flush, then an empty final
+	// fixed-Huffman block: the octets 03 00) instead of Go's empty final stored block
+	ZlibStyleEnd bool
 }
 
 func (o *EncOpts) b64(b []byte) string {
@@ -276,7 +279,11 @@ func EncryptedAssertionXML(o *EncOpts, ct, ek []byte) string {
 // attacker likes) to the recipient.
 func EncryptAssertion(o *EncOpts, pt []byte) (string, error) {
 	if o.CompressPlaintext {
-		pt = Deflate(pt, 6)
+		if o.ZlibStyleEnd {
+			pt = DeflateZlibStyle(pt, 6)
+		} else {
+			pt = Deflate(pt, 6)
+		}
 	}
 	key := make([]byte, KeySizeOf(o.DataAlg))
 	io.ReadFull(o.Rand, key)
@@ -304,6 +311,19 @@ func Deflate(b []byte, level int) []byte {
 	w.Write(b)
 	w.Close()
 	return buf.Bytes()
+}
+
+// DeflateZlibStyle ends the stream the way zlib does: a sync flush (00 00 ff ff) and then an empty final
+// block with fixed Huffman codes, which is the two octets 03 00 - the stream ends in a zero octet.
+func DeflateZlibStyle(b []byte, level int) []byte {
+	var buf bytes.Buffer
+	w, err := flate.NewWriter(&buf, level)
+	if err != nil {
+		panic(err)
+	}
+	w.Write(b)
+	w.Flush()
+	return append(buf.Bytes(), 0x03, 0x00)
 }
 
 // Present encodes a document for the POST binding: raw (level<-2 means raw) or DEFLATE.
@@ -362,3 +382,65 @@ func TextCleanBlockLen(n int) bool {
 
 // TextCleanHeaders are first octets of non-final stored blocks that are plain ASCII characters.
 var TextCleanHeaders = []byte{0x20, 0x28, 0x30, 0x38, 0x40, 0x48, 0x50, 0x58, 0x60, 0x68, 0x70, 0x78}
+
+// ---- hand-made leading blocks ------------------------------------------------------------
+
+type bitWriter struct {
+	out  []byte
+	acc  uint32
+	nbit uint
+}
+
+// bits writes the n low bits of v, least significant first (header fields, extra bits).
+func (w *bitWriter) bits(v uint32, n uint) {
+	for i := uint(0); i < n; i++ {
+		w.acc |= ((v >> i) & 1) << w.nbit
+		w.nbit++
+		if w.nbit == 8 {
+			w.out = append(w.out, byte(w.acc))
+			w.acc, w.nbit = 0, 0
+		}
+	}
+}
+
+// code writes a Huffman code of n bits, most significant first.
+func (w *bitWriter) code(v uint32, n uint) {
+	for i := int(n) - 1; i >= 0; i-- {
+		w.bits((v>>uint(i))&1, 1)
+	}
+}
+
+// LeadingEmptyBlocks returns two legal, empty, non-final DEFLATE blocks that any complete stream may
+// follow (what a flushing compressor emits before the data): a dynamic-Huffman block that declares
+// 257+hlit literal/length codes of which only end-of-block is in use, and an empty stored block that
+// realigns to a byte boundary. 2 <= hlit <= 9; the first octet is 0x04 + 8*hlit (hlit 7: '<').
+func LeadingEmptyBlocks(hlit int) []byte {
+	if hlit < 2 || hlit > 9 {
+		panic("LeadingEmptyBlocks: hlit out of range")
+	}
+	w := &bitWriter{}
+	w.bits(0, 1)            // BFINAL
+	w.bits(2, 2)            // BTYPE: dynamic Huffman
+	w.bits(uint32(hlit), 5) // HLIT
+	w.bits(0, 5)            // HDIST: one distance code
+	w.bits(14, 4)           // HCLEN: 18 code-length codes follow
+	// lengths of the code-length codes in the order 16 17 18 0 8 7 9 6 10 5 11 4 12 3 13 2 14 1:
+	// symbol 18 one bit ("0"), symbols 1 and 17 two bits ("10", "11")
+	for _, l := range []uint32{0, 2, 1, 0, 0, 0, 0, 0, 0, 0, 0, 0, 0, 0, 0, 0, 0, 2} {
+		w.bits(l, 3)
+	}
+	w.code(0, 1)
+	w.bits(138-11, 7) // 138 zero lengths
+	w.code(0, 1)
+	w.bits(118-11, 7) // 118 zero lengths: literals 0..255
+	w.code(2, 2)      // length 1 for symbol 256 (end of block)
+	w.code(3, 2)
+	w.bits(uint32(hlit+1-3), 3) // zero lengths for the remaining literal/length codes and the distance code
+	w.code(0, 1)                // end of block
+	w.bits(0, 1)                // BFINAL
+	w.bits(0, 2)                // BTYPE: stored
+	if w.nbit > 0 {
+		w.out = append(w.out, byte(w.acc))
+	}
+	return append(w.out, 0x00, 0x00, 0xff, 0xff)
+}
